@@ -78,7 +78,7 @@ struct tstate {
 
 struct thr {
 	pthread_t tid;
-	int idx, started;
+	int idx, started, ktid;
 	enum role role;
 	struct vp_rng rng;
 	struct vp_thr *vt;
